@@ -46,6 +46,7 @@ def main():
         notes = open(f'{src}/notes.md').read()
         open(f'{dest}/notes.md', 'w').write(notes)
         trig = re.search(r'(?:Trigger|Needed to manifest|What it needs to manifest)[^:]*:\**\s*(.*?)(?:\n- |\n\n|\Z)', notes, re.S | re.I)
+        note_file = f'{CONF}/{P}_{V}.note'
         meta = {
             'property': P,
             'variant': V,
@@ -75,6 +76,8 @@ def main():
                 'report_lines': lines[:6],
             },
         }
+        if os.path.isfile(note_file):
+            meta['note'] = open(note_file).read().strip()
         json.dump(meta, open(f'{dest}/meta.json', 'w'), indent=1)
         print(f'{spec}: stored in {dest}; check fired: {viol} {fired}')
 
